@@ -171,6 +171,8 @@ where
             }
         }
         while !bytes.is_empty() {
+            #[cfg(feature = "verif")]
+            crate::verif::tick();
             let unborrowed_result = match decode_utf8(&bytes) {
                 Ok(s) => {
                     debug_assert!(s.as_ptr() == bytes.as_ptr());
@@ -390,6 +392,8 @@ fn decode_to_sink<Sink, A>(
     A: Atomicity,
 {
     loop {
+        #[cfg(feature = "verif")]
+        crate::verif::tick();
         let mut out = <Tendril<fmt::Bytes, A>>::new();
         let max_len = decoder
             .max_utf8_buffer_length_without_replacement(input.len())
